@@ -465,13 +465,15 @@ func (cmd *mainCmd) preview(
 ) error {
 	cmd.printComments(filename, comments)
 	// diff.Text splits its input with a bufio.Scanner, which gives up on
-	// lines longer than 64 KiB. Split the lines here instead.
+	// lines longer than 64 KiB and drops carriage returns, so that the diff
+	// for a file with CRLF line endings would not apply to it. Split the
+	// lines here instead.
 	return diff.Slices(filename, filename, splitLines(originalContent), splitLines(modifiedContent), cmd.Stdout)
 }
 
-// splitLines splits text into lines the way bufio.ScanLines does: the line
-// terminator and one carriage return before it are dropped, and a last line
-// without a terminator counts as a line.
+// splitLines splits text into lines without their terminating newline. A
+// carriage return before the newline stays part of the line, and a last line
+// without a newline counts as a line.
 func splitLines(text []byte) []string {
 	var lines []string
 	for len(text) > 0 {
@@ -481,7 +483,7 @@ func splitLines(text []byte) []string {
 		} else {
 			text = nil
 		}
-		lines = append(lines, string(bytes.TrimSuffix(line, []byte("\r"))))
+		lines = append(lines, string(line))
 	}
 	return lines
 }
